@@ -14,8 +14,8 @@
  *	2 = forced chain (archive_read_append_filter)
  *	-> (optrc wrc (writer codes) outlen probe rstatus (reader codes) reclen equal firstdiff
  *	    fbytes_in fbytes_out hash_in hash_out head errstring retry)
- *	retry: -1 = not needed; otherwise the read failed and was repeated with ONE read block:
- *	1 = that read recovered the input exactly, 0 = it did not
+ *	retry: -1 = not needed; otherwise the read did not give back the input with the writer's
+ *	filter codes and was repeated with ONE read block: 1 = that read did, 0 = it did not either
  * case (3 (filter ...) woptsA woptsB dataA dataB (wchunk ...) (rblock ...) readmode reqsize)
  *	two archives written with the same stack, concatenated, read back as one.
  *	-> same shape as op 2, compared with dataA ++ dataB
@@ -460,13 +460,19 @@ static int probe_payload(const unsigned char *data, size_t len)
 	return n;	/* 1 = only the "none" source filter; >1 = a bidder accepted the payload; -1 = error */
 }
 
+static int read_is_good(const struct rres *r, const unsigned char *data, size_t len, const int *wcodes, int nw)
+{
+	return r->status == 0 && r->reclen == len && (len == 0 || memcmp(r->rec, data, len) == 0) &&
+	    r->ncodes == nw && (nw == 0 || memcmp(r->codes, wcodes, (size_t)nw * sizeof(int)) == 0);
+}
+
 static int retry_one_block(val *filters, int readmode, const unsigned char *arch, size_t alen, size_t reqsize,
-    const unsigned char *data, size_t len)
+    const unsigned char *data, size_t len, const int *wcodes, int nw)
 {
 	struct rres r2;
 	int ok;
 	read_stack(filters, readmode, arch, alen, NULL, reqsize, &r2);
-	ok = r2.status == 0 && r2.reclen == len && (len == 0 || memcmp(r2.rec, data, len) == 0);
+	ok = read_is_good(&r2, data, len, wcodes, nw);
 	free(r2.rec);
 	return ok;
 }
@@ -514,9 +520,9 @@ static void op_roundtrip(val *c)
 	probe = probe_payload(data, len);
 	if (optrc == ARCHIVE_OK && wrc >= ARCHIVE_WARN) {
 		read_stack(filters, (int)v_ll(v_at(c, 6)), s.b, s.len, v_at(c, 5), (size_t)v_ull(v_at(c, 7)), &r);
-		if (r.status != 0 && v_len(v_at(c, 5)) > 0)
+		if (!read_is_good(&r, data, len, wcodes, nw) && v_len(v_at(c, 5)) > 0)
 			retry = retry_one_block(filters, (int)v_ll(v_at(c, 6)), s.b, s.len,
-			    (size_t)v_ull(v_at(c, 7)), data, len);
+			    (size_t)v_ull(v_at(c, 7)), data, len, wcodes, nw);
 	} else
 		r.status = -999;
 	report(optrc, wrc, wcodes, nw, s.len, probe, &r, data, len, retry);
@@ -545,9 +551,9 @@ static void op_concat(val *c)
 	probe = probe_payload(both, la + lb);
 	if (optrc == ARCHIVE_OK && wrc >= ARCHIVE_WARN) {
 		read_stack(filters, (int)v_ll(v_at(c, 8)), s.b, s.len, v_at(c, 7), (size_t)v_ull(v_at(c, 9)), &r);
-		if (r.status != 0 && v_len(v_at(c, 7)) > 0)
+		if (!read_is_good(&r, both, la + lb, wcodes, nw) && v_len(v_at(c, 7)) > 0)
 			retry = retry_one_block(filters, (int)v_ll(v_at(c, 8)), s.b, s.len,
-			    (size_t)v_ull(v_at(c, 9)), both, la + lb);
+			    (size_t)v_ull(v_at(c, 9)), both, la + lb, wcodes, nw);
 	} else
 		r.status = -999;
 	report(optrc, wrc, wcodes, nw, s.len, probe, &r, both, la + lb, retry);
